@@ -45,7 +45,8 @@ def _strip_cast(e: ast.AST) -> ast.AST:
 
 
 def sym_exec(path: Path, stop: T.Optional[ast.AST] = None, env: T.Optional[T.Dict[str, ast.AST]] = None) -> T.Dict[str, ast.AST]:
-    """Values of the local names after the straight-line statements of `path` (up to, not including, `stop`)."""
+    """Copy propagation along one enumerated path: local name -> the *expression* (over parameters/attributes) it stands
+    for before `stop`.  Nothing is evaluated; the result is only compared as a normalised expression shape (policy form d)."""
     env = dict(env or {})
     for ev in path.events:
         if ev.kind != 'stmt' or ev.node is None:
